@@ -230,7 +230,8 @@ def extra(ctx, cfg, results):
             jobs.append(("missing-executable", t, probs, 0, r.getrandbits(48)))
             if r.random() < 0.5 or thorough:
                 jobs.append(("noread", t, probs, 0, r.getrandbits(48)))
-        # the dying-worker scenario (finding F10, repaired by 3e60422)
+        # the dying-worker scenario (finding F10, repaired by 3e60422).  The worker died of finding F3b (isize::MIN rendered
+        # to TPTP, debug build); since F3b is repaired too, the run takes the "rendering defect is gone" branch of run_job
         dead = os.path.join(scratch, "dead")
         clilib.write(os.path.join(dead, "a.lp"), "p(-9223372036854775808).\n")
         clilib.write(os.path.join(dead, "b.lp"), "p(-9223372036854775808). q :- q.\n")
